@@ -364,8 +364,9 @@ class Gen:
         if x < 0.30:
             inj = []
             if r.random() < 0.35:
-                for _ in range(r.randint(1, 2)):
-                    key = r.choice([1, 5, 6, 8, 8, 30, 31, 32])
+                order = [1, 30, 31, 32, 5, 6, 8]          # the order in which the yield points fire inside a poll
+                keys = sorted((r.choice([1, 5, 6, 8, 8, 30, 31, 32]) for _ in range(r.randint(1, 2))), key=order.index)
+                for key in keys:
                     ops = [o for o in (self.simple(allow_rb=False) for _ in range(r.randint(1, 2))) if o]
                     if ops: inj.append((key, ops))
             self.body.append(('poll', inj)); return
